@@ -1101,6 +1101,34 @@ func (g *c11Gen) next() c11Op {
 			c11Op{Op: "verify", Node: other, Cred: &c, Down: []int{l.Node}},
 			c11Op{Op: "verify", Node: other, Cred: &c})
 		return c11Op{Op: "verify", Node: other, Cred: &c}
+	case k >= 81 && k < 84 && g.nticks <= 12:
+		// hostile sequence: an EXTERNAL list (with expirationDate far away, close, or WITHOUT one) is cached by a verification;
+		// its issuer then sets the bit; once the cache is older than maxAgeExternal the next verification must ask the host
+		// again and answer revoked; a second verification right after (cache hit) as well
+		url := g.pick(c11Foreign)
+		j := r.Intn(6)
+		kind, expin := "noexp", 0
+		switch r.Intn(3) {
+		case 0:
+			kind, expin = "ok", 86420
+		case 1:
+			kind, expin = "ok", 1820
+		}
+		mkHost := func(bits []int) c11Op {
+			return c11Op{Op: "host", Host: &c11Host{URL: url, Kind: kind, Signer: "did:web:evil.example", ExpIn: expin, Bits: bits}}
+		}
+		c := c11Cred{ID: "did:web:example.com:iam:alice#x" + strconv.Itoa(r.Intn(3)), IssuerDID: "did:web:example.com:iam:alice",
+			Statuses: []c11Status{{Type: StatusList2021EntryType, Purpose: "revocation", List: c11URL{Node: -1, Raw: url}, Idx: strconv.Itoa(j)}}}
+		vn := r.Intn(2)
+		g.pending = append(g.pending,
+			c11Op{Op: "verify", Node: vn, Cred: &c},
+			mkHost([]int{(j + 1) % 6, j}),
+			c11Op{Op: "verify", Node: vn, Cred: &c},
+			c11Op{Op: "tick", Secs: 960},
+			c11Op{Op: "verify", Node: vn, Cred: &c},
+			c11Op{Op: "verify", Node: vn, Cred: &c},
+			c11Op{Op: "record", Node: vn, List: &c11URL{Node: -1, Raw: url}})
+		return mkHost([]int{(j + 1) % 6})
 	case k >= 78 && k < 81 && len(g.entries) > 1:
 		// hostile sequence: one credential with two revocation entries that name DIFFERENT lists of one node, exactly one of
 		// them revoked; both orders, on the hosting node and on the other node. Every entry must be judged by the list that
